@@ -592,7 +592,10 @@ impl CommandHub {
                                         self.handle_worker_response(worker_id, response);
                                     }
                                 }
-                                WorkerResult::CloseSession => self.handle_worker_close(&token),
+                                WorkerResult::CloseSession => {
+                                    self.handle_worker_close(&token);
+                                    self.fail_requests_in_flight_to(worker_id);
+                                }
                             }
                         }
                     }
@@ -668,6 +671,30 @@ impl CommandHub {
         }
     }
 
+    /// A worker whose channel closed will never answer: every request still in
+    /// flight to it is counted as failed, so the tasks waiting for it finish
+    /// (with a failure) instead of waiting for the worker timeout — or forever,
+    /// for the tasks that have no timeout (load state, soft stop).
+    fn fail_requests_in_flight_to(&mut self, worker_id: WorkerId) {
+        let orphans: Vec<RequestId> = self
+            .in_flight
+            .keys()
+            .filter(|id| worker_of_request_id(id) == Some(worker_id))
+            .cloned()
+            .collect();
+        for id in orphans {
+            self.handle_worker_response(
+                worker_id,
+                WorkerResponse {
+                    id,
+                    status: ResponseStatus::Failure.into(),
+                    message: format!("worker {worker_id} closed its channel before answering"),
+                    content: None,
+                },
+            );
+        }
+    }
+
     fn handle_finishing_task(&mut self, task_id: TaskId, task: TaskContainer, timed_out: bool) {
         if timed_out {
             debug!("Task timeout: {:?}", task);
@@ -689,6 +716,12 @@ impl CommandHub {
             "handle_finishing_task must purge all in-flight entries for the finished task"
         );
     }
+}
+
+/// The worker a scattered request id was issued to
+/// (`Server::scatter_on`: `"{verb}-{worker}-{task}-{index}"`).
+fn worker_of_request_id(id: &str) -> Option<WorkerId> {
+    id.rsplitn(4, '-').nth(2)?.parse().ok()
 }
 
 #[derive(thiserror::Error, Debug)]
